@@ -133,7 +133,9 @@ def realise(rng, item, serial):
     elif c == 'co':
         creator = MODMAP['co'][mod]
         s = genpel.gen_src(rng, 'PS', ncallouts=1, shapes=[dict(fru='m', pce=None, mru=None, loc=4)], kind='other')
-        s['callouts']['list'][0]['fru']['pn'] = encode.text(PROC[beh], 8)
+        # the procedure name fills its field with NULs - or, in another log of the same history, with blanks: another
+        # name as far as the module is concerned
+        s['callouts']['list'][0]['fru']['pn'] = encode.text(PROC[beh], 8, 0x20 if rng.random() < .4 else 0)
         s['words'][0][3] = (s['words'][0][3] & 0xF0)
         secs = [s]
     else:
